@@ -10,7 +10,7 @@ URIS = [None, None, "urn:a", "urn:a", "urn:b", "urn:c", "http://example.com/ns",
 PLAIN_URIS = ["urn:a", "urn:b", "urn:c", "http://example.com/ns"]
 LOCALS = ["a", "b", "R", "item", "x-y", "_u", "é", "n1"]
 TEXTS = ["t", "a b", "1 < 2 & 3 > 2", '"q"', "'s'", "\"both'", "x\ty", "l1\nl2", "", " ", "]]>", "é✓", "{curly}", "&amp;", "0"]
-HOSTILE = ["a\rb", "\r\n", "ctl\x01", "\x0b", "nul\x00", "￾", "a\x85b", " "]
+HOSTILE = ["a\rb", "\r\n", "x\r", "\nlead", "\r", "\n", "ctl\x01", "\x0b", "nul\x00", "￾", "a\x85b", " "]
 
 # ------------------------------------------------------------------ user maps
 USER_MAPS = [
@@ -273,7 +273,7 @@ def _writer_cases(rng, tier, indent_ok=True):
     n = 2500 if tier == "quick" else 30000
     for _ in range(n):
         r = rng.random()
-        hostile = r < 0.15
+        hostile = r < 0.18
         messy = 0.15 <= r < 0.35
         ev = rand_events(rng, hostile=hostile, messy=messy)
         if 0.35 <= r < 0.5:
